@@ -3,6 +3,7 @@
 -/
 import Mathlib.Tactic
 import QKV.Lemmas.Pow2
+import QKV.Lemmas.F32
 import QKV.Model.Stoch
 namespace QKV.Stoch
 open QKV
@@ -554,14 +555,94 @@ theorem binary_sign_kept (use01 : Bool) (α x m u1 u2 : ℚ) (hm : 0 < m)
     rw [sgn_pos h3, sgn_pos hx0]
     cases use01 <;> simp [absR] <;> norm_num
 
-/-- po2: an exact power of two inside the exponent range, below `max_value`, is fixed by every draw u ≥ 0 -/
-theorem po2_clip_code_fixed (c : Po2Cfg) (hs : c.stoch = true) (k : ℤ) (u : ℚ) (hu : 0 ≤ u)
-    (hx : ¬ pow2 k < epsK) (hf : po2Filter c (pow2 k) = pow2 k)
+/-- po2: an input whose `x_input` is an exact power of two (not cut by `max_value`; under
+    quadratic approximation: square root `2^k`, i.e. the code `4^k`) is fixed by every draw u ≥ 0 -/
+theorem po2_clip_code_fixed (c : Po2Cfg) (hs : c.stoch = true) (hfl : c.floorMode = false) (k : ℤ)
+    (xabs s u : ℚ) (hu : 0 ≤ u) (hx : ¬ xabs < epsK) (hin : po2Input c xabs s = pow2 k)
     (h : LogOK (pow2 k) (roundLog2 (pow2 k + epsK))) :
-    clipPowerOfTwo c true (pow2 k) u = clipI k c.minExp c.maxExp := by
-  unfold clipPowerOfTwo
-  simp only [hs, hx, if_true, if_false, hf, stochasticRoundPo2, absR_nonneg_id (pow2_pos k).le]
+    clipPowerOfTwo c true xabs s u = po2Qf c * clipI k c.minExp c.maxExp := by
+  unfold clipPowerOfTwo po2Log2
+  simp only [hs, hfl, hx, if_true, if_false, hin, stochasticRoundPo2, absR_nonneg_id (pow2_pos k).le,
+    Bool.false_eq_true]
   rw [stochasticRoundPo2Core_eq u (bracket_pow2 k) h]
   have : pow2 k ≤ pow2 k + u * pow2 k := by have := pow2_pos k; nlinarith
   simp [this]
+
+/-! ## `log2_rounding = "floor"` and `quadratic_approximation` -/
+
+theorem pow2_two_mul (a : ℤ) : pow2 (2 * a) = pow2 a * pow2 a := by
+  rw [two_mul, pow2_add]
+
+/-- "round, then step down when the rounded power exceeds the input" is the floor of the binary
+    logarithm, for ANY rounded logarithm that is within one of the truth (weak form of `LogOK`) -/
+theorem floorFromRound_eq {y : ℚ} {e0 l : ℤ} (hb : Bracket y l)
+    (h : pow2 (e0 - 1) ≤ y ∧ y < pow2 (e0 + 1)) : floorFromRound y e0 = l := by
+  unfold floorFromRound
+  have h1 : e0 - 1 < l + 1 := lt_of_pow2_lt (lt_of_le_of_lt h.1 hb.2)
+  have h2 : l < e0 + 1 := lt_of_pow2_lt (lt_of_le_of_lt hb.1 h.2)
+  have hc : e0 = l ∨ e0 = l + 1 := by omega
+  rcases hc with e | e
+  · subst e; rw [if_neg (not_lt.mpr hb.1)]
+  · subst e; rw [if_pos hb.2]; ring
+
+/-- the exact `roundLog2` is within one of the logarithm (so the hypothesis of
+    `floorFromRound_eq` / `stochasticRoundPo2Core_eq` holds for it), for every `y > 0` -/
+theorem logOK_roundLog2 {y : ℚ} (hy : 0 < y) : LogOK y (roundLog2 y) := by
+  unfold roundLog2 LogOK
+  have hyy : 0 < y * y := mul_pos hy hy
+  obtain ⟨h1, h2⟩ := floorLog2Rat_spec hyy
+  generalize floorLog2Rat (y * y) = L at h1 h2
+  set e := (L + 1) / 2 with he
+  have hL1 : 2 * e - 1 ≤ L := by omega
+  have hL2 : L ≤ 2 * e := by omega
+  constructor
+  · by_contra hc
+    push Not at hc
+    have hp := pow2_pos (e - 1)
+    have : y * y ≤ pow2 (e - 1) * pow2 (e - 1) := by nlinarith
+    rw [← pow2_two_mul] at this
+    have h3 : pow2 (2 * (e - 1)) < pow2 L := pow2_lt_pow2 (by omega)
+    linarith
+  · by_contra hc
+    push Not at hc
+    have hp := pow2_pos (e + 1)
+    have : pow2 (e + 1) * pow2 (e + 1) ≤ y * y := by nlinarith
+    rw [← pow2_two_mul] at this
+    have h3 : pow2 (L + 1) ≤ pow2 (2 * (e + 1)) := pow2_le_pow2 (by omega)
+    linarith
+
+theorem epsK_pos : 0 < epsK := by unfold epsK; norm_num
+
+/-- the rounded logarithm of `y + eps` that `stochastic_round_po2` starts from is within one of
+    `log2 y` whenever `y` is strictly inside its bracket and `eps` does not push it out -/
+theorem logOK_eps_of_bracket {y : ℚ} {l : ℤ} (hb : Bracket y l) (h1 : pow2 l < y)
+    (h2 : y + epsK < pow2 (l + 1)) : LogOK y (roundLog2 (y + epsK)) := by
+  have he := epsK_pos
+  have hy : 0 < y + epsK := by have := pow2_pos l; linarith
+  obtain ⟨H1, H2⟩ := logOK_roundLog2 hy
+  generalize roundLog2 (y + epsK) = e at H1 H2
+  have a1 : e - 1 < l + 1 := lt_of_pow2_lt (lt_trans H1 h2)
+  have a2 : l < e + 1 := lt_of_pow2_lt (by linarith)
+  have hc : e = l ∨ e = l + 1 := by omega
+  rcases hc with rfl | rfl
+  · exact ⟨lt_trans (pow2_lt_pow2 (by omega)) h1, hb.2⟩
+  · refine ⟨by simpa using h1, lt_trans hb.2 (pow2_lt_pow2 (by omega))⟩
+
+/-- the bracket of a square root, squared: the bracket in the lattice of the codes `4^k` -/
+theorem bracket_sq {s : ℚ} {l : ℤ} (hb : Bracket s l) :
+    pow2 (2 * l) ≤ s * s ∧ s * s < pow2 (2 * (l + 1)) := by
+  have hp := pow2_pos l
+  have hs : 0 < s := lt_of_lt_of_le hp hb.1
+  rw [pow2_two_mul, pow2_two_mul]
+  constructor
+  · nlinarith [hb.1]
+  · nlinarith [hb.2, pow2_pos (l + 1)]
+
+/-- in "floor" mode `_clip_power_of_two` never looks at the stochastic flag, the phase or the draw -/
+theorem clipPowerOfTwo_floor (c : Po2Cfg) (hfl : c.floorMode = true) (phase : Bool) (xabs s u : ℚ) :
+    clipPowerOfTwo c phase xabs s u =
+      if xabs < epsK then c.minExp
+      else po2Qf c * clipI (floorFromRound (po2Input c xabs s) (roundLog2 (po2Input c xabs s)))
+                          c.minExp c.maxExp := by
+  unfold clipPowerOfTwo po2Log2; simp only [hfl, if_true]
 end QKV.Stoch
